@@ -24,7 +24,20 @@ pub struct Line {
     pub role: &'static str,
 }
 
-pub const UNIVERSE: [&str; 9] = ["", "/a", "/ab", "/a.b", "/a/a", "/a/é", "/a/a/b", "/c", "/c/d"];
+pub const UNIVERSE_DEFAULT: [&str; 9] = ["", "/a", "/ab", "/a.b", "/a/a", "/a/é", "/a/a/b", "/c", "/c/d"];
+/// variant with names that end in the overlay's marker suffix. An entry `x_wo` NEXT TO an entry `x`
+/// is the reserved-name clash the properties set aside (the marker file of `x` and the marker
+/// directory of a directory `x_wo` are the same path); names ending in `_wo` without such a
+/// sibling are ordinary names and must work.
+pub const UNIVERSE_WO: [&str; 9] = ["", "/a", "/ab", "/a.b", "/a/a", "/a/e_wo", "/a/a/b", "/c", "/c/d_wo"];
+static UNIVERSE_VARIANT: std::sync::atomic::AtomicUsize = std::sync::atomic::AtomicUsize::new(0);
+/// the fixed path universe of this process (chosen once from the command line: `--names wo`)
+pub fn universe() -> &'static [&'static str; 9] {
+    if UNIVERSE_VARIANT.load(std::sync::atomic::Ordering::Relaxed) == 1 { &UNIVERSE_WO } else { &UNIVERSE_DEFAULT }
+}
+pub fn set_universe_variant(v: usize) {
+    UNIVERSE_VARIANT.store(v, std::sync::atomic::Ordering::Relaxed);
+}
 
 pub fn parent_of(p: &str) -> String {
     match p.rfind('/') {
@@ -67,15 +80,15 @@ pub fn random_bytes(rng: &mut Rng) -> Vec<u8> {
 pub fn gen_layers(rng: &mut Rng, n_layers: usize, populate_upper: bool) -> Vec<Content> {
     // types: paths that have universe children are directories
     let mut is_dir: BTreeMap<&str, bool> = BTreeMap::new();
-    for p in UNIVERSE.iter().skip(1) {
-        let has_child = UNIVERSE.iter().any(|q| parent_of(q) == **p && !q.is_empty());
+    for p in universe().iter().skip(1) {
+        let has_child = universe().iter().any(|q| parent_of(q) == **p && !q.is_empty());
         is_dir.insert(p, has_child || rng.chance(1, 3));
     }
     let mut layers = vec![];
     for li in 0..n_layers {
         let mut c = Content::new();
         let density = if li == 0 && !populate_upper { 0 } else { 1 + rng.below(3) };
-        for p in UNIVERSE.iter().skip(1) {
+        for p in universe().iter().skip(1) {
             let par = parent_of(p);
             let par_ok = par.is_empty() || matches!(c.get(&par), Some(None));
             if par_ok && density > 0 && rng.below(4) < density {
@@ -423,7 +436,7 @@ fn typ_of(snap: &BTreeMap<String, Obs>, p: &str) -> char {
 
 /// state-aware generator of the next operation; `snap` is the implementation's last snapshot
 pub fn gen_op(rng: &mut Rng, ts: &TreeSpec, snap: &BTreeMap<String, Obs>, cfg: &Cfg) -> Op {
-    let uni: Vec<&str> = UNIVERSE.iter().cloned().filter(|p| ts.root_calls || !p.is_empty()).collect();
+    let uni: Vec<&str> = universe().iter().cloned().filter(|p| ts.root_calls || !p.is_empty()).collect();
     for _attempt in 0..200 {
         let p = rng.pick(&uni[..]).to_string();
         let t = typ_of(snap, &p);
@@ -527,7 +540,7 @@ pub fn gen_op(rng: &mut Rng, ts: &TreeSpec, snap: &BTreeMap<String, Obs>, cfg: &
 }
 
 fn walk_universe() -> String {
-    UNIVERSE.iter().map(|p| enc_str(p)).collect::<Vec<_>>().join(" ")
+    universe().iter().map(|p| enc_str(p)).collect::<Vec<_>>().join(" ")
 }
 
 /// Run one scenario on the real code, producing the script (with model-only twins) and the
@@ -575,7 +588,7 @@ pub fn run_impl(world: &mut RWorld, cfg: Cfg, ts: &TreeSpec, rng: &mut Rng, n_op
                 } else if ts.stale_handles() && !handle_open && rng.chance(1, 7) {
                     // mostly on paths that can get children, so that the path can change type
                     // and gain entries while the handle is open
-                    let p = if rng.chance(2, 3) { rng.pick(&["/a", "/c", "/a/a"][..]).to_string() } else { rng.pick(&UNIVERSE[1..]).to_string() };
+                    let p = if rng.chance(2, 3) { rng.pick(&["/a", "/c", "/a/a"][..]).to_string() } else { rng.pick(&universe()[1..]).to_string() };
                     handle_open = true;
                     handle_path = p.clone();
                     Op { name: if rng.chance(1, 2) { "hcreate" } else { "happend" }, path: p, bytes: None, dest: None, time: None }
@@ -583,7 +596,7 @@ pub fn run_impl(world: &mut RWorld, cfg: Cfg, ts: &TreeSpec, rng: &mut Rng, n_op
                     // operations aimed at the path of the open handle: remove it, re-create it with
                     // the other type, put something below it
                     let hp = handle_path.clone();
-                    let child = UNIVERSE.iter().find(|q| parent_of(q) == hp).map(|q| q.to_string());
+                    let child = universe().iter().find(|q| parent_of(q) == hp).map(|q| q.to_string());
                     match rng.below(6) {
                         0 | 1 => Op { name: "remove_file", path: hp, bytes: None, dest: None, time: None },
                         2 | 3 => Op { name: "create_dir", path: hp, bytes: None, dest: None, time: None },
@@ -608,7 +621,8 @@ pub fn run_impl(world: &mut RWorld, cfg: Cfg, ts: &TreeSpec, rng: &mut Rng, n_op
             }
         };
         let step = i + 1;
-        let is_setter = op.name.starts_with("set_");
+        // timestamps before/after: setters, and (C19) append, which must preserve the creation time
+        let is_setter = op.name.starts_with("set_") || (ts.preds.contains(&"time-roundtrip") && op.name == "append");
         if is_setter {
             // metadata is read before any content (content reads perturb the access time)
             push(world, &mut lines, &mut impl_out, Line { who: Who::Both, text: format!("op {} metadata_t {}", cfg.target, enc_str(&op.path)), step, role: "tbefore" });
@@ -916,6 +930,19 @@ pub fn judge(run: &Run, model_out: &[String], ts: &TreeSpec, rep: &mut Report) {
                 rep.fail(mk("prop", format!("{}:{}:marker-visible", kind_class(&run.cfg_name), opname), "overlay bookkeeping (.whiteout / *_wo) is visible in the overlay's namespace".into(), impl_snap, ""));
             }
         }
+        if step > 0 && ts.preds.contains(&"time-roundtrip") && opname == "append" && impl_res == "ok" && !run.cfg_name.contains("phys") {
+            if let (Some(bi), Some(ai)) = (by.get(&(step, "tbefore")), by.get(&(step, "tafter"))) {
+                let before = run.impl_out[*bi].clone().unwrap();
+                let after = run.impl_out[*ai].clone().unwrap();
+                let get = |s: &str, f: &str| s.split(' ').find(|t| t.starts_with(f)).map(|t| t[2..].to_string());
+                if before != model_out[*bi] || after != model_out[*ai] {
+                    rep.fail(mk("corr", format!("{}:{}:timestamps", kind_class(&run.cfg_name), opname), format!("metadata with timestamps: implementation {} -> {} / model {} -> {}", before, after, model_out[*bi], model_out[*ai]), &after, &model_out[*ai]));
+                }
+                if before.starts_with("ok F") && get(&before, "c=") != get(&after, "c=") {
+                    rep.fail(mk("prop", format!("{}:append:creation-time-changed", kind_class(&run.cfg_name)), format!("appending changed the creation time: {} -> {}", before, after), &after, &before));
+                }
+            }
+        }
         if step > 0 && ts.preds.contains(&"time-roundtrip") && opname.starts_with("set_") {
             if let (Some(bi), Some(ai)) = (by.get(&(step, "tbefore")), by.get(&(step, "tafter"))) {
                 let before = run.impl_out[*bi].clone().unwrap();
@@ -1176,6 +1203,9 @@ pub fn tree_spec_for(prop: &str) -> TreeSpec {
 
 pub fn run(o: &Opts) -> Report {
     let prop = o.extra.iter().position(|a| a == "--prop").and_then(|i| o.extra.get(i + 1)).cloned().unwrap_or_else(|| "C01".into());
+    if o.extra.iter().position(|a| a == "--names").and_then(|i| o.extra.get(i + 1)).map(|s| s.as_str()) == Some("wo") {
+        set_universe_variant(1);
+    }
     let ts = tree_spec_for(&prop);
     let mut rep = Report::new("tree");
     let mut rng = Rng::new(o.seed ^ 0x7ee);
